@@ -29,7 +29,9 @@ type CliPlan struct {
 	Srv                 PeerCfg       `json:"srv"`             // what the scripted server advertises and how it grants credit
 	SrvMaxStreams       int64         `json:"srv_max_streams"` // -1: not sent
 	NoPingAck           bool          `json:"no_ping_ack,omitempty"`
-	Reqs                []CliReq      `json:"reqs"`
+	// BadPreface: what the server sends before (or instead of) its first SETTINGS: "" | ping-first | goaway-first | garbage | data-first
+	BadPreface string   `json:"bad_preface,omitempty"`
+	Reqs       []CliReq `json:"reqs"`
 	// Lanes[i] for i < len(Reqs) is the scripted response to request i (enabled once the request's HEADERS,
 	// or with WaitEnd its END_STREAM, has been received); further lanes are connection-level control lanes.
 	Lanes    []Lane   `json:"lanes"`
